@@ -728,6 +728,9 @@ class Model:
         efi = op.get('efi')
         if mac and efi is False:
             efi = None
+        pe = op.get('pe', 1)
+        if ((efi or mac) and pe == 2) or (mac and pe == 3):
+            raise Skip('partition entry collides with the EFI/Mac entry')
         if (mac or efi) and 'hybrid-gpt' in self.avoid:
             raise Skip('avoid:hybrid-gpt')
         n_ef = sum(1 for e in self.boot['entries'] if e['eff_platform'] == 0xef)
